@@ -386,7 +386,17 @@ class MergeEngine:
     @staticmethod
     def get_remove_cset(engine, csets):
         """Generate the cset of what files shall be removed from the livefs."""
-        return csets["old_cset"].difference(csets["install"])
+        install = csets["install"]
+        remove = csets["old_cset"].difference(install)
+        # An entry recorded for the old pkg can be the very object the new pkg
+        # just merged, named through a symlinked directory (/usr/lib -> lib64
+        # on either side); compare with the directory component resolved.
+        resolve = livefs._realpath_dir()
+        installed = {resolve(x.location) for x in install}
+        aliased = {x.location for x in remove if resolve(x.location) in installed}
+        if aliased:
+            remove = remove.difference(aliased)
+        return remove
 
     @staticmethod
     def get_replace_cset(engine, csets):
